@@ -137,6 +137,7 @@ def classify_method_extraction(src, start, end, new_src, new_name="extracted_q")
         if v in returned:
             continue
         first = _first_mention_after(v, after_nodes)
+        same_block = _first_mention_after(v, _siblings_after(region))
         carried = False
         if first is None and loop is not None:
             carried = any(n == v for n, _ in _names([loop], (ast.Load,)))
@@ -161,7 +162,7 @@ def classify_method_extraction(src, start, end, new_src, new_name="extracted_q")
         elif in_try:
             ak = "try-handler-rebinds"
         elif ak in ("read", "aug"):
-            ak = "direct"
+            ak = "direct" if same_block is not None else "direct-at-outer-level"
         elif ak.startswith("nested-"):
             ak = "nested-" + ak.split(":")[1]
         return "missing-return", f"w={wk},after={ak}"
@@ -206,6 +207,18 @@ def _stmts_after(host, region, pos, r_end):
         if isinstance(node, FUNC):
             break
     return out
+
+
+def _siblings_after(region):
+    node = region[-1]
+    parent = getattr(node, "_parent", None)
+    if parent is None:
+        return []
+    for _, body in srcpos.bodies(parent):
+        if any(st is node for st in body):
+            idx = [i for i, st in enumerate(body) if st is node][0]
+            return body[idx + 1:]
+    return []
 
 
 def _first_mention_after(v, stmts):
